@@ -19,10 +19,8 @@ Algorithm level (models `Model.FastPath`, `Model.Binary`; tie: component ops `fp
 * `binary_decides` — without `many_digits` (or with `lossy`) `binary` always returns a valid float;
 * `binary_truncated_correct` — **complete**: a *valid* non-lossy answer for a truncated mantissa is `roundNE x`
   for every `x ∈ [M, M+1)·base^e` (the true value of the literal);
-* `slowBinary_correct` — the full statement of the undecided case, a `Prop`; `slowBinary_correct_partial`
-  proves it for the single-digit loop (`compact` builds; radix 16 and 32): digit loop, leading-zero skipping,
-  sticky bit, rounding. Missing: the equivalence of the 8-digit fast loop (radix 2 / 4 / 8, non-`compact`)
-  with eight single steps.
+* `slowBinary_correct` — **complete**: the undecided case: both digit loops, leading-zero skipping, the
+  `u64_step` cut, the sticky flag and the rounding of `slow_binary`.
 -/
 namespace LexVerif.Props.C05
 open LexVerif.Spec LexVerif.Model LexVerif.Proof.Tables
@@ -165,26 +163,14 @@ theorem binary_truncated_correct {F : FTy} (hF : F = FTy.f64 ∨ F = FTy.f32) {b
 def sigDigits (radix : Nat) (integer : List Nat) (fraction : Option (List Nat)) : List Nat :=
   ((integer ++ fraction.getD []).map fun c => Binary.digitVal c radix).dropWhile (· == 0)
 
-/-- **`slowBinary_correct` — full statement** (a `Prop`): when `binary` could not decide — the first
-`u64_step` significant digits `M` sit exactly half-way above an even significand — `slow_binary` returns
-`roundNE` of the whole literal `(M + 0.d₁d₂…)·base^e`: down to even when every further digit is zero,
-up otherwise. Bytes are ASCII digits valid for the radix. -/
-def slowBinary_correct : Prop :=
-  ∀ (F : FTy), (F = FTy.f64 ∨ F = FTy.f32) → ∀ (compact : Bool) (radix : Nat), IsPow2 radix →
-  ∀ (base : Nat), IsPow2 base → ∀ (u64step : Nat), radix ^ u64step ≤ 2 ^ 64 → 2 ^ 64 < radix ^ (u64step + 1) →
-  ∀ (e : Int), ExpInRange e → ∀ (integer : List Nat) (fraction : Option (List Nat)),
-    (∀ c ∈ integer ++ fraction.getD [], c < 256 ∧ Binary.digitVal c radix < radix) →
-    let sig := sigDigits radix integer fraction
-    let first := valOf radix 0 (sig.take u64step)
-    (∃ fp, Binary.binary F base ⟨first, e, false, true⟩ false = .ok fp ∧ fp.exp < 0) →
-    extendedToFloat F (Binary.slowBinary F compact radix base u64step e integer fraction) =
-      roundNE F.fmt (powFrac base e (valOf radix 0 sig)).1
-        ((powFrac base e (valOf radix 0 sig)).2 * radix ^ (sig.length - u64step))
-
-/-- **`slowBinary_correct_partial`**: the full statement restricted to the single-digit loop of
-`parse_u64_digits` (`compact` builds, or radix 16 / 32 where the 8-digit loop is not compiled in). -/
-theorem slowBinary_correct_partial (F : FTy) (hF : F = FTy.f64 ∨ F = FTy.f32) (compact : Bool) (radix : Nat)
-    (hradix : IsPow2 radix) (hsingle : compact = true ∨ 10 < radix) (base : Nat) (hb : IsPow2 base)
+/-- **`slowBinary_correct`** (**complete**): when `binary` could not decide — the first `u64_step` significant
+digits `M` sit exactly half-way above an even significand — `slow_binary` returns `roundNE` of the whole literal
+`(M + 0.d₁d₂…)·base^e`: down to even when every further digit is zero, up otherwise. Covers both digit loops of
+`parse_u64_digits` (single digits; 8 digits at a time for radix ≤ 10 in non-`compact` builds), the skipping of
+leading zeros across integer and fraction part, the `u64_step` cut and the sticky flag. Bytes are ASCII digits
+valid for the radix (what `parse_number` hands over for a separator-free format). -/
+theorem slowBinary_correct (F : FTy) (hF : F = FTy.f64 ∨ F = FTy.f32) (compact : Bool) (radix : Nat)
+    (hradix : IsPow2 radix) (base : Nat) (hb : IsPow2 base)
     (u64step : Nat) (hfit : radix ^ u64step ≤ 2 ^ 64) (hmax : 2 ^ 64 < radix ^ (u64step + 1))
     (e : Int) (he : ExpInRange e) (integer : List Nat) (fraction : Option (List Nat))
     (hvalid : ∀ c ∈ integer ++ fraction.getD [], c < 256 ∧ Binary.digitVal c radix < radix)
@@ -196,10 +182,14 @@ theorem slowBinary_correct_partial (F : FTy) (hF : F = FTy.f64 ∨ F = FTy.f32) 
         ((powFrac base e (valOf radix 0 (sigDigits radix integer fraction))).2 *
           radix ^ ((sigDigits radix integer fraction).length - u64step)) := by
   rcases hF with h' | h' <;> subst h'
-  · exact slowBinary_digits_correct layout_f64 (by decide) compact radix hsingle hradix hb u64step hfit hmax e
+  · exact slowBinary_digits_correct layout_f64 (by decide) compact radix hradix hb u64step hfit hmax e
       he.1 he.2 integer fraction hvalid hund
-  · exact slowBinary_digits_correct layout_f32 (by decide) compact radix hsingle hradix hb u64step hfit hmax e
+  · exact slowBinary_digits_correct layout_f32 (by decide) compact radix hradix hb u64step hfit hmax e
       he.1 he.2 integer fraction hvalid hund
+
+/-- the `u64_step` values of the crate satisfy the hypothesis `radix^step ≤ 2^64 < radix^(step+1)` -/
+example : ∀ r ∈ [2, 4, 8, 16, 32], r ^ SmallSet.Radix.u64Step r ≤ 2 ^ 64 ∧ 2 ^ 64 < r ^ (SmallSet.Radix.u64Step r + 1) := by
+  decide
 
 /-- non-vacuity: radix 16, sixteen digits `8000000000000400` (even, exactly half-way) then `1`: `binary`
 declines, `slow_binary` rounds up; with a `0` tail it rounds to even -/
